@@ -17,7 +17,8 @@ ID = "C17"
 RULE = ("triangulated disks from the zoo (Delaunay disks with non-negative cotangent weights, ragged borders with chords and ears, grids, fans incl. "
         "no interior vertex), border length 3..150 incl. not a multiple of 4; boundary circle / square / custom convex polygon (regular, random convex, with "
         "collinear runs); uniform or cotangent weights; per-vertex or per-corner storage; plus non-disk surfaces that must be rejected; non-trivial = >= 5 "
-        "interior vertices and (border length not a multiple of 4 or a chord present); distinct = (mesh, mode, weights, storage) hash")
+        "interior vertices and (border length not a multiple of 4 or a chord present); distinct = (mesh, mode, weights, storage) hash"
+        "; variants: whole-number coordinates / targets as integer arrays, explicit custom_boundary=None, previous run with other weights on the same object, non-disks rejected under every option combination incl. a caller-supplied target")
 REQUIRED = {"border": 150, "harmonic": 120, "orientation": 100, "storage": 60, "reject": 20}
 CASE_TIMEOUT = {"quick": 30.0, "thorough": 600.0}
 ASSUMPTIONS = ["orientation is judged for uniform weights always and for cotangent weights only when every interior edge weight is >= 1e-9",
